@@ -55,7 +55,7 @@ pub fn record(spec: &RecSpec) -> Result<Rec, String> {
     for (i, o) in spec.objs.iter().enumerate() {
         let d = o.desc(None)?;
         let tl = d.transfer_length;
-        let toi = s.add_object(o.prio, d).map_err(|e| format!("add_object: {}", e.0))?;
+        let toi = add_tallied(&mut s, o.prio, d, &spec.sess.oti).map_err(|e| format!("add_object: {}", e.0))?;
         objs.push((toi, i, tl));
     }
     let mut pkts = Vec::new();
